@@ -44,7 +44,7 @@ class Target:
         raise KeyError(tag)
 
 
-def run_case(kind, caller, owner_state, burst):
+def run_case(kind, caller, owner_state, burst, fetch="call"):
     """returns per call: executed thread class and what the caller saw"""
     import bellows.thread as bt
     tgt = Target()
@@ -59,6 +59,16 @@ def run_case(kind, caller, owner_state, burst):
         errs = []
         owner_loop.call_soon_threadsafe(owner_loop.set_exception_handler, lambda lp, ctx: errs.append(ctx))
         proxy = bt.ThreadsafeProxy(tgt, owner_loop)
+        # hand-over: the attribute is looked up on one loop and the callable invoked on the other (a callback
+        # registered with the proxy's method, functools.partial(proxy.x), ...)
+        prefetched = None
+        if fetch != "call":
+            async def lookup():
+                try:
+                    return getattr(proxy, kind)
+                except TypeError:
+                    return "refused"
+            prefetched = await elt.run_coroutine_threadsafe(lookup()) if fetch == "owner" else await lookup()
         if owner_state == "closed":
             elt.force_stop()
             await asyncio.wait_for(elt.thread_complete, 5)
@@ -66,10 +76,15 @@ def run_case(kind, caller, owner_state, burst):
             elt.force_stop()           # stop requested, the calls below race with it
 
         async def one(tag):
-            try:
-                fn = getattr(proxy, kind)
-            except TypeError:
-                return ["refused"]
+            if prefetched is not None:
+                if isinstance(prefetched, str):
+                    return ["refused"]
+                fn = prefetched
+            else:
+                try:
+                    fn = getattr(proxy, kind)
+                except TypeError:
+                    return ["refused"]
             try:
                 r = fn(tag)
                 if asyncio.isfuture(r) or asyncio.iscoroutine(r):
@@ -146,7 +161,7 @@ class Check(PropertyCheck):
     shard = 300
     rule = ("every method kind (coroutine returning a value / None / raising, plain returning None / a value / raising, non-callable "
             "attribute) x caller loop {owner, another thread} x owner-loop state {running, stopping, closed} x bursts of 1..200 concurrent "
-            "calls, with real threads; each call of a burst is one evaluation; non-trivial = caller on another thread; distinct by "
+            "calls, the attribute looked up at the call or beforehand on the other loop (hand-over of the callable), with real threads; each call of a burst is one evaluation; non-trivial = caller on another thread; distinct by "
             "(kind, caller, state, burst size)")
     assumptions = ["thread scheduling is not controlled: the runtime half is exploration, not proof",
                    "owner-loop state 'stopping' has no model counterpart"]
@@ -161,10 +176,14 @@ class Check(PropertyCheck):
                         continue          # nobody can run on a loop that is stopped
                     for b in bursts:
                         cases.append({"kind": kind, "caller": caller, "state": state, "burst": b})
+                    # the attribute looked up on the OTHER side from where it is invoked
+                    fetch = "owner" if caller == "other" else "other"
+                    for b in bursts[:2]:
+                        cases.append({"kind": kind, "caller": caller, "state": state, "burst": b, "fetch": fetch})
         return cases
 
     def run_impl(self, case):
-        return run_case(case["kind"], case["caller"], case["state"], case["burst"])
+        return run_case(case["kind"], case["caller"], case["state"], case["burst"], case.get("fetch", "call"))
 
     def describe(self, case):
         return case
